@@ -114,6 +114,7 @@ def run(tier):
   cc.replay_behaviours(rep, 'GinCore_Sim_oper2', num=k // 2, depth=14, nontrivial=_nontrivial, generate=k * 3, replay_fn=_replay,
                        seed_off=9)
   rep.extra.update(STATS)
+  cc.trace_validate(rep, 50 if tier == 'quick' else 600, seed_off=107)
   return rep.finish()
 
 
